@@ -68,7 +68,8 @@ func (s *Snapshot) Diff(n ast.Node, cl Changelog) *Snapshot {
 			Pos: s.value.Pos(),
 			End: s.value.End(),
 		},
-		cl: cl,
+		cl:  cl,
+		cmp: make(nodeComparisons),
 	}
 
 	v := snapshot(reflect.ValueOf(n).Convert(s.value.Type()), nil)
@@ -82,7 +83,8 @@ type Region struct{ Pos, End token.Pos }
 type changeFinder struct {
 	Region
 
-	cl Changelog
+	cl  Changelog
+	cmp nodeComparisons
 }
 
 func (f changeFinder) unchanged(from, to *value) {
@@ -256,7 +258,7 @@ func (f changeFinder) walkSlice(from, to *value) bool {
 	}
 
 	es := diff.Difference(from.Len(), to.Len(), func(i, j int) diff.Result {
-		return compareNodes(from.Children[i], to.Children[j])
+		return f.cmp.compare(from.Children[i], to.Children[j])
 	})
 
 	regions := make([]Region, from.Len())
@@ -327,12 +329,28 @@ func (f changeFinder) walkSlice(from, to *value) bool {
 	return equal
 }
 
-type nodeComparer struct{ diff.Result }
+// nodeComparisons remembers the results of comparing pairs of nodes.
+// Difference asks about the same pair several times, and comparing two lists
+// compares their elements again: without it the time taken grows
+// exponentially with the depth to which lists are nested.
+type nodeComparisons map[[2]*value]diff.Result
 
-func compareNodes(from, to *value) diff.Result {
-	var c nodeComparer
+func (m nodeComparisons) compare(from, to *value) diff.Result {
+	key := [2]*value{from, to}
+	if r, ok := m[key]; ok {
+		return r
+	}
+
+	c := nodeComparer{cmp: m}
 	c.Walk(from, to)
+	m[key] = c.Result
 	return c.Result
+}
+
+type nodeComparer struct {
+	diff.Result
+
+	cmp nodeComparisons
 }
 
 func (c *nodeComparer) Walk(from, to *value) {
@@ -375,7 +393,7 @@ func (c *nodeComparer) Walk(from, to *value) {
 		}
 
 		es := diff.Difference(from.Len(), to.Len(), func(i, j int) diff.Result {
-			result := compareNodes(from.Children[i], to.Children[j])
+			result := c.cmp.compare(from.Children[i], to.Children[j])
 			results[i][j] = result
 			return result
 		})
